@@ -317,7 +317,7 @@ func c10Programs(c *Check) []*Program {
 		ExprStmt{AppCall{[]AppStage{{Name: "basename", Args: []Expr{sl("x/y")}}}}}, pr(call("leaf", vr("label"), vr("bo"))),
 	})
 	progs := []*Program{p1, p2, p3, p4, p5}
-	n := c.Pick(2, 16)
+	n := c.Pick(2, 8)
 	for i := 0; i < n; i++ {
 		cfg := genConfigs[[]string{"c02", "c03"}[i%2]]
 		cfg.SmallNames = false
@@ -494,6 +494,9 @@ func checkC10(c *Check) {
 				}
 				if !c.Thorough() && bi >= 3 && ni%7 != bi%7 {
 					continue // quick tier: generated programs visit a seventh of the names each
+				}
+				if c.Thorough() && bi >= 5 && ni%3 != bi%3 {
+					continue // thorough tier: generated programs visit a third of the names each
 				}
 				from := cands[(ni+bi)%len(cands)]
 				cl := nameClass(to, harvest[to])
